@@ -133,7 +133,7 @@ def case_w1(cs):
         if s.verdict == common.OOD:
             return common.result(common.OOD, sig=sig, cnt=cnt, why=s.why)
         w = {"exception": s.why, "ops_done": drv.ops_done, "case_seed": cs, "tree": spec["tree"], "integer": spec["integer"], "comm": spec["comm"]}
-        if any(m in s.why for m in common.GUARD_MSGS) or "Newton" in s.why or "gotten bigger" in s.why or "infinite loop" in s.why:
+        if s.exc is not None and common.is_guard_exc(s.exc):
             return common.result(common.VIOL, sig=sig, nt=True, cnt=cnt, mech="k1_guard", witness=w)
         return common.result(common.VIOL, sig=sig, nt=True, cnt=cnt, mech="c10_op_raises", witness=w)
     bad = nonfinite(drv.root)
